@@ -12,16 +12,26 @@ PROP = "C17"
 PROP_FILE = "PwVerif/Props/C17.lean"
 DRIVER = "Driver/C17.lean"
 THEOREMS = [
+    "C17_inputs",
+    "C17_preview_is_instance",
+    "C17_labels_declared",
+    "C17_labels_scraped",
+    "C17_labels_none",
+    "C17_labels_refused",
+    "C17_output_count",
+    "C17_fn_faithful",
     "C17_bind",
     "C17_run",
     "C17_run_plain",
     "C17_outputs_single",
     "C17_outputs_multi",
     "C17_fn_again",
+    "C17_xf_preview",
     "C17_xf_list",
     "C17_xf_dict",
     "C17_xf_df",
     "C17_xf_unpack",
+    "C17_dc_preview",
     "C17_xf_dataclass_partial",
     "C17_xf_dataclass_repaired",
     "C17_xf_dataclass_witness",
@@ -255,6 +265,9 @@ def gen_params(rng, n):
 def gen_fn_case(rng, tier, idx, n=None, exhaustive=False):
     n = rng.choice([0, 1, 1, 2, 2, 3, 3, 4, 5]) if n is None else n
     params = gen_params(rng, n)
+    if n >= 1 and not exhaustive and rng.random() < 0.02:
+        # a parameter named like a keyword of Node.__init__: the definition is refused
+        params[rng.randrange(n)]["name"] = rng.choice(["label", "parent", "autorun", "args", "kwargs", "checkpoint"])
     nret = rng.choice([0, 1, 1, 1, 2, 2, 3, 4])
     rets = []  # [spec, source text, pre-statement, hint]
     used = set()
@@ -277,6 +290,21 @@ def gen_fn_case(rng, tier, idx, n=None, exhaustive=False):
             rets.append([f"t{j}", call, None, "_T"])
     single_tuple = nret >= 2 and rng.random() < 0.12
     ret_style = rng.choice(["none", "return_none", "bare_return"]) if nret == 0 else "values"
+    # how the return statement is written (the body computes the same in every layout)
+    layout = "line"
+    lr = rng.random()
+    if nret >= 2 and not single_tuple and lr < 0.15:
+        layout = "multiline"  # parenthesised tuple, one element per line, a call split over two lines
+    elif nret >= 1 and not single_tuple and lr < 0.22:
+        layout = "two_returns"  # a second (dead) return statement: scraping/validation refuse, labels + no validation work
+    elif nret == 1 and not single_tuple and lr < 0.30:
+        layout = "one_tuple"  # `return r0,` : an ast.Tuple of one element, the returned object is a 1-tuple
+    dup_ret = False
+    if nret >= 2 and n >= 1 and not single_tuple and rng.random() < 0.04:
+        dup_ret = True  # the same parameter returned twice: scraped labels repeat
+        i = rng.randrange(n)
+        for j in (0, 1):
+            rets[j] = [f"p{i}", params[i]["name"], None, params[i]["ann"] or "object"]
     nvals = 0 if nret == 0 else (1 if single_tuple else nret)
     nout_scraped = max(1, nvals)
     declared = None
@@ -294,14 +322,22 @@ def gen_fn_case(rng, tier, idx, n=None, exhaustive=False):
     elif mode < 0.62 and nvals >= 2 and tier == "thorough":
         declared = [f"out{j}" for j in range(max(2, nvals + rng.choice([-1, 1])))]  # mismatch, validation OFF
         validate = False
+    elif mode < 0.64 and nvals >= 2:
+        declared = ["same"] * nvals  # repeated declared labels
+    elif mode < 0.70 and nvals == 0:
+        declared = ["out0"]  # a label for a function that returns nothing: refused by validation, one output without
+        validate = rng.random() < 0.6
     if declared is not None and validate and rng.random() < 0.15 and len(declared) == nvals:
         validate = False  # consistent labels, validation merely switched off
+    if layout == "two_returns" and declared is not None and len(declared) == nvals and rng.random() < 0.7:
+        validate = False
     ret_ann = None
-    if rng.random() < 0.4:
+    ra = rng.random()
+    if ra < 0.4:
         nout = len(declared) if declared is not None else nout_scraped
         if nvals == 0:
             ret_ann = "None"
-        elif single_tuple:
+        elif single_tuple or layout == "one_tuple":
             ret_ann = "tuple" if nout == 1 else None
         elif nvals == 1:
             ret_ann = rets[0][3] if nout == 1 else None
@@ -310,6 +346,8 @@ def gen_fn_case(rng, tier, idx, n=None, exhaustive=False):
                 ret_ann = "tuple[" + ", ".join(r[3] for r in rets) + "]"
             elif nout == 1:
                 ret_ann = "tuple"
+    elif ra < 0.43 and nvals >= 2:
+        ret_ann = rng.choice(["tuple[int]", "None", "tuple", "tuple[" + ", ".join(["int"] * (nvals + 1)) + "]"])  # does not fit
     api = rng.choice(["dec", "dec_call", "dec_labels", "dec_labels", "to_fn", "fn_node"])
     if declared is not None and api in ("dec", "dec_call"):
         api = "dec_labels"
@@ -321,7 +359,7 @@ def gen_fn_case(rng, tier, idx, n=None, exhaustive=False):
         "kind": "fn", "id": f"{tier[0]}{idx}", "params": params,
         "rets": [[r[0], r[1], r[2]] for r in rets], "single_tuple": single_tuple, "ret_style": ret_style,
         "declared": declared, "validate": validate, "ret_ann": ret_ann,
-        "future": rng.random() < 0.4, "api": api,
+        "future": rng.random() < 0.4, "api": api, "layout": layout,
     }
     ctr = _Ctr()
     if exhaustive:
@@ -456,8 +494,12 @@ def gen_cases(rng, tier):
             j += 1
     yield {"kind": "malformed", "id": "m0",
            "lines": ["call 0", "inst x", "def fn q", "def dc 2", "param", "again", "frobnicate 1 2",
-                     "def list 1", "inst 1 tuple(i1", "call 0 =", "inst 0", "call 1 i1 item_0", "call 2 i1"],
-           "expect": ["bad-op"] * 7 + ["def ok ins=[item_0=ND]", "bad-op", "bad-op", "inst ok ins=[item_0=ND]", "bad-op", "bad-op"]}
+                     "def list 1", "inst 1 tuple(i1", "call 0 =", "inst 0", "call 1 i1 item_0", "call 2 i1",
+                     "retstmt bare", "def fn 2 - t0", "def fn 1 - t0", "retann - x", "retelt x", "param a -", "io",
+                     "retstmt frob", "show"],
+           "expect": ["bad-op"] * 7 + ["def ok ins=[item_0:-=ND] outs=[list:builtins.list]", "bad-op", "bad-op",
+                                       "inst ok ins=[item_0=ND]", "bad-op", "bad-op"]
+                     + ["bad-op"] * 2 + ["bad-op"] * 5 + ["def ok ins=[] outs=[None:builtins.NoneType]"]}
 
 
 def corpus():
@@ -524,7 +566,24 @@ def fn_source(case, h):
             body.append("rt = (" + ", ".join(texts) + ("," if len(texts) == 1 else "") + ")")
             body.append("return rt")
         else:
-            body.append("return " + ", ".join(texts))
+            layout = case.get("layout", "line")
+            one_line = "return " + ", ".join(texts) + ("," if layout == "one_tuple" else "")
+            if layout == "multiline":
+                body.append("return (")
+                for t in texts:
+                    if t.startswith("_T(") and ", " in t:
+                        head, tail = t.split(", ", 1)  # a call written over two lines
+                        body.append("    " + head + ",")
+                        body.append("       " + tail + ",")
+                    else:
+                        body.append("    " + t + ",")
+                body.append(")")
+            elif layout == "two_returns":
+                body.append("if len(" + repr("") + ") > 0:")
+                body.append("    " + one_line)
+                body.append(one_line)
+            else:
+                body.append(one_line)
     elif case["ret_style"] == "return_none":
         body.append("return None")
     elif case["ret_style"] == "bare_return":
@@ -657,8 +716,78 @@ def _args(part):
     return [val(t) for t in pos], {k: val(t) for k, t in kw.items()}
 
 
-def _hint_repr(h):
-    return "-" if h is None else (getattr(h, "__qualname__", None) and f"{getattr(h, '__module__', '')}.{h.__qualname__}") or repr(h)
+def hint_tok(h):
+    """a type hint as one token without blanks: `-` none, `module.qualname` for plain classes, repr otherwise"""
+    import typing
+
+    if h is None:
+        return "-"
+    if isinstance(h, type) and typing.get_origin(h) is None:
+        return f"{h.__module__}.{h.__qualname__}"
+    return repr(h).replace(" ", "")
+
+
+_hint_repr = hint_tok
+
+
+def _ns():
+    import typing
+
+    from .nodes_c17 import Term
+
+    return {"typing": typing, "_T": Term}
+
+
+def ann_tok(ann):
+    """the token the model is given for an annotation written as `ann` in the source: evaluated here by plain
+    `eval`, independently of the library (which has to go through inspect.signature(eval_str=True))"""
+    if ann is None:
+        return "-"
+    x = eval(ann, _ns())
+    return "None" if x is None else hint_tok(x)
+
+
+def nvals_of(case):
+    if case["ret_style"] != "values":
+        return 0
+    return 1 if case["single_tuple"] else len(case["rets"])
+
+
+def ret_texts(case):
+    """the return statement(s) as ast sees them: list of ('bare',) | ('single', text) | ('tuple', [texts])"""
+    if case["ret_style"] == "none":
+        return []
+    if case["ret_style"] == "bare_return":
+        return [("bare",)]
+    if case["ret_style"] == "return_none":
+        return [("single", "None")]
+    texts = [r[1] for r in case["rets"]]
+    layout = case.get("layout", "line")
+    if case["single_tuple"]:
+        st = ("single", "rt")
+    elif len(texts) == 1 and layout != "one_tuple":
+        st = ("single", texts[0])
+    else:
+        st = ("tuple", texts)
+    return [st, st] if layout == "two_returns" else [st]
+
+
+_DEF_MARKERS = [
+    ("conflicts with __init__", "reservedName"),
+    ("can only parse callables with at most one", "multipleReturns"),
+    ("must not have degenerate output labels", "degenerate"),
+    ("number of return values must exactly match", "countMismatch"),
+    ("must either both or neither be", "presence"),
+    ("Expected type hints and return labels to have matching", "hintCount"),
+    ("non-default argument", "dataclass"),
+]
+
+
+def _classify_def(e):
+    for marker, name in _DEF_MARKERS:
+        if marker in str(e):
+            return name
+    return type(e).__name__
 
 
 def _reference(sig_params, a1, k1, a2, k2):
@@ -817,29 +946,26 @@ def _run(case, h, modname, variant):
         prev = cls.preview_io()
     except Exception as e:  # noqa: BLE001
         facts["def_error"] = f"{type(e).__name__}: {str(e)[:160]}"
-        obs.append("def err")
-        stats["def:err"] = 1
+        facts["def_error_kind"] = _classify_def(e)
+        obs.append(f"def err {facts['def_error_kind']}")
+        stats[f"def:err:{facts['def_error_kind']}"] = 1
         return {"obs": obs, "variant": variant, "facts": facts, "stats": stats}
 
-    # ---- class-level and instance-level description -----------------------------------------------
+    # ---- class-level description ------------------------------------------------------------------------
     pin = prev["inputs"]
     pout = prev["outputs"]
-    line = "def ok ins=[" + ",".join(f"{k}={tok(d)}" for k, (_hint, d) in pin.items()) + "]"
-    if kind in ("fn", "unpack"):
-        line += f" nouts={len(pout)}"
+    line = "def ok ins=[" + ",".join(f"{k}:{hint_tok(hint)}={tok(d)}" for k, (hint, d) in pin.items()) + "] outs=[" \
+        + ",".join(f"{k}:{'*' if kind == 'dc' else hint_tok(hint)}" for k, hint in pout.items()) + "]"
     obs.append(line)
-    facts["preview_in"] = [[k, _hint_repr(hint), tok(d)] for k, (hint, d) in pin.items()]
-    facts["preview_out"] = [[k, _hint_repr(hint)] for k, hint in pout.items()]
-    exp_in_hints, exp_out = None, None
+    # what the definition says (independent of the library and of the model): [label, hint object, default token]
+    exp_in, exp_out = None, None
+    NT = type(None)
     if kind == "fn":
-        exp_in_hints = []
+        exp_in = []
         for q in case["params"]:
-            if q["ann"] is None:
-                exp_in_hints.append(None)
-            else:
-                x = eval(q["ann"], ns)
-                exp_in_hints.append(type(None) if x is None else x)
-        nvals = 0 if case["ret_style"] != "values" else (1 if case["single_tuple"] else len(case["rets"]))
+            x = None if q["ann"] is None else eval(q["ann"], ns)
+            exp_in.append([q["name"], NT if (q["ann"] is not None and x is None) else x, q["default"] or "ND"])
+        nvals = nvals_of(case)
         if case["declared"] is not None:
             labels = list(case["declared"])
         elif nvals == 0:
@@ -850,24 +976,52 @@ def _run(case, h, modname, variant):
             labels = [r[1] for r in case["rets"]]
         if case["ret_ann"] is None:
             # a function without return value: the single output "None" is hinted NoneType
-            hints = [type(None)] if (nvals == 0 and case["declared"] is None) else [None] * len(labels)
+            hints = [NT] if (nvals == 0 and case["declared"] is None) else [None] * len(labels)
         else:
             x = eval(case["ret_ann"], ns)
-            x = type(None) if x is None else x
+            x = NT if x is None else x
             hints = list(typing.get_args(x)) if len(labels) > 1 else [x]
-        exp_out = list(zip(labels, hints))
-        facts["hints_in_ok"] = [hint == e for (_k, (hint, _d)), e in zip(pin.items(), exp_in_hints)] \
-            if len(pin) == len(exp_in_hints) else [False]
-        facts["exp_out_labels"] = labels
-        facts["hints_out_ok"] = [hint == e for (_k, hint), (_l, e) in zip(pout.items(), exp_out)] \
-            if len(pout) == len(exp_out) else [False]
+            hints += [None] * (len(labels) - len(hints))
+        exp_out = [[lab, hnt] for lab, hnt in zip(labels, hints)]
     elif kind == "dc":
-        exp_in_hints = [eval(a, ns) for _x, a, _k, _d in case["fields"]]
-        facts["hints_in_ok"] = [hint == e for (_k, (hint, _d)), e in zip(pin.items(), exp_in_hints)] \
-            if len(pin) == len(exp_in_hints) else [False]
+        exp_in = [[x, eval(a, ns), d if k == "v" else "ND"] for x, a, k, d in case["fields"]]
+    elif kind == "dict":
+        exp_in = [[x, None if a is None else eval(a, ns), d or "ND"] for x, a, d in case["spec"]]
+        exp_out = [["dict", dict]]
+    elif kind == "list":
+        exp_in = [[f"item_{i}", None, "ND"] for i in range(case["n"])]
+        exp_out = [["list", list]]
+    elif kind == "df":
+        from pandas import DataFrame
+
+        exp_in = [[f"row_{i}", dict, "ND"] for i in range(case["n"])]
+        exp_out = [["df", DataFrame]]
+    elif kind == "unpack":
+        exp_in = [["list", list, "ND"]]
+        exp_out = [[f"item_{i}", None] for i in range(case["n"])]
+
+    def cmp_in(got):  # got: [(label, hint object, default token)]
+        return {"got": [[k, hint_tok(hh), d] for k, hh, d in got],
+                "exp": [[k, hint_tok(hh), d] for k, hh, d in exp_in],
+                "ok": len(got) == len(exp_in) and all(g[0] == e[0] and g[1] == e[1] and g[2] == e[2]
+                                                      for g, e in zip(got, exp_in))}
+
+    def cmp_out(got, exp):  # [(label, hint object)]; a dataclass node is hinted with its own (per use) class: labels only
+        return {"got": [[k, hint_tok(hh)] for k, hh in got], "exp": [[k, hint_tok(hh)] for k, hh in exp],
+                "labels_ok": [g[0] for g in got] == [e[0] for e in exp],
+                "ok": len(got) == len(exp) and all(g[0] == e[0] and (kind == "dc" or g[1] == e[1]) for g, e in zip(got, exp))}
+
+    facts["preview_in"] = cmp_in([(k, hh, tok(d)) for k, (hh, d) in pin.items()])
+    if exp_out is not None:
+        facts["preview_out"] = cmp_out([(k, hh) for k, hh in pout.items()], exp_out)
+
+    def io_line(node):
+        return ("io ins=[" + ",".join(f"{k}:{hint_tok(c.type_hint)}:{tok(c.default)}={tok(c.value)}"
+                                      for k, c in node.inputs.items())
+                + "] outs=[" + ",".join(f"{k}:{'*' if kind == 'dc' else hint_tok(c.type_hint)}={tok(c.value)}"
+                                        for k, c in node.outputs.items()) + "]")
 
     # ---- runs -----------------------------------------------------------------------------------------
-    first_inst_io = None
     for run in case["runs"]:
         a1, k1 = _args(run["inst"])
         a2, k2 = _args(run["call"])
@@ -891,12 +1045,11 @@ def _run(case, h, modname, variant):
             continue
         rf["inst"] = "ok"
         obs.append(f"inst ok ins={_panel(node.inputs)}")
-        if first_inst_io is None:
-            first_inst_io = True
-            facts["inst_in"] = [[k, _hint_repr(c.type_hint), tok(c.default)] for k, c in node.inputs.items()]
-            facts["inst_in_hint_ok"] = [c.type_hint == e for (_k, c), e in zip(node.inputs.items(), exp_in_hints)] \
-                if exp_in_hints is not None and len(exp_in_hints) == len(node.inputs) else None
-            facts["inst_out"] = [[k, _hint_repr(c.type_hint)] for k, c in node.outputs.items()]
+        obs.append(io_line(node))
+        # the instance's channels against the definition, and against the class-level preview
+        rf["io_in"] = cmp_in([(k, c.type_hint, tok(c.default)) for k, c in node.inputs.items()])
+        rf["io_out"] = cmp_out([(k, c.type_hint) for k, c in node.outputs.items()], [(k, hh) for k, hh in pout.items()])
+        rf["io_in_labels"] = list(node.inputs.labels)
         try:
             ret = node(*a2, **k2)
             rf["call"] = "ret"
@@ -904,6 +1057,7 @@ def _run(case, h, modname, variant):
             rf["outs"] = [[k, tok(c.value)] for k, c in node.outputs.items()]
             rf["ins"] = [[k, tok(c.value)] for k, c in node.inputs.items()]
             obs.append(f"call ret={tok(ret)} outs={_vals(node.outputs)} ins={_panel(node.inputs)}")
+            obs.append(io_line(node))
             stats["call:ret"] = stats.get("call:ret", 0) + 1
         except Exception as e:  # noqa: BLE001
             c = _classify(e, kind)
@@ -947,39 +1101,76 @@ def _args_line(op, part):
     return " ".join([op, str(len(pos)), *pos, *[f"{k}={v}" for k, v in kw.items()]])
 
 
-def _expect_def_error(case):
-    """definitions the harness itself knows to be refused by label validation (no Lean content)"""
-    if case["kind"] != "fn" or case["declared"] is None or not case["validate"]:
-        return False
-    nvals = 0 if case["ret_style"] != "values" else (1 if case["single_tuple"] else len(case["rets"]))
-    return len(case["declared"]) != nvals
+def scraped_labels(case):
+    nvals = nvals_of(case)
+    if nvals == 0:
+        return ["None"]
+    if case["single_tuple"]:
+        return ["rt"]
+    return [r[1] for r in case["rets"]]
+
+
+def _def_expect(case):
+    """what the property statement lets the oracle demand of a definition: 'ok' (the node class exists and shows the
+    definition), 'refuse' (count validation: declared labels vs returned values), or 'any' (outside the statement:
+    a parameter named like a keyword of Node.__init__, repeated labels, a second return statement together with
+    scraping or validation, a return annotation that does not fit the number of outputs)"""
+    if case["kind"] != "fn":
+        return "ok"
+    import typing
+
+    if any(q["name"] in INIT_KW for q in case["params"]):
+        return "any"
+    nvals = nvals_of(case)
+    declared, validate = case["declared"], case["validate"]
+    if case.get("layout") == "two_returns" and (validate or declared is None):
+        return "any"
+    labels = list(declared) if declared is not None else scraped_labels(case)
+    if len(set(labels)) != len(labels):
+        return "any"
+    if declared is not None and validate and len(declared) != nvals:
+        return "refuse"
+    if case["ret_ann"] is not None and len(labels) > 1:
+        x = eval(case["ret_ann"], _ns())
+        if x is None or len(typing.get_args(x)) != len(labels):
+            return "any"
+    return "ok"
 
 
 def model_input(case, impl=None):
     if case["kind"] == "malformed":
         return list(case["lines"])
-    v = (impl or {}).get("variant") or [1, 1]
+    v = (impl or {}).get("variant") or [0, 0]
     lines = [f"cfg {v[0]} {v[1]}"]
     kind = case["kind"]
     if kind == "fn":
-        if _expect_def_error(case):
-            return []
-        nvals = 0 if case["ret_style"] != "values" else (1 if case["single_tuple"] else len(case["rets"]))
-        nout = len(case["declared"]) if case["declared"] is not None else max(1, nvals)
         specs = [r[0] for r in case["rets"]] if case["ret_style"] == "values" else []
-        if case["single_tuple"]:
+        if case["single_tuple"] or case.get("layout") == "one_tuple":
             specs = ["T:" + ",".join(specs)]
-        lines.append(" ".join(["def", "fn", str(nout), *specs]))
+        decl = ",".join(case["declared"]) if case["declared"] is not None else "-"
+        lines.append(" ".join(["def", "fn", "1" if case["validate"] else "0", decl, *specs]))
         for q in case["params"]:
-            lines.append(f"param {q['name']} {q['default'] if q['default'] is not None else '-'}")
+            lines.append(f"param {q['name']} {q['default'] if q['default'] is not None else '-'} {ann_tok(q['ann'])}")
+        for st in ret_texts(case):
+            if st[0] == "tuple":
+                lines.append("retstmt tuple")
+                lines.extend(f"retelt {t}" for t in st[1])
+            else:
+                lines.append(" ".join(["retstmt", *st]))
+        if case["ret_ann"] is not None:
+            import typing
+
+            x = eval(case["ret_ann"], _ns())
+            lines.append(" ".join(["retann", "None" if x is None else hint_tok(x),
+                                   *([] if x is None else [hint_tok(a) for a in typing.get_args(x)])]))
         lines.append("show")
     elif kind in ("list", "df", "unpack"):
         lines.append(f"def {kind} {case['n']}")
     elif kind == "dict":
-        lines.append(" ".join(["def", "dict", *[f"{x}={d if d is not None else '-'}" for x, _a, d in case["spec"]]]))
+        lines.append(" ".join(["def", "dict", *[f"{x}:{ann_tok(a)}={d if d is not None else '-'}" for x, a, d in case["spec"]]]))
     elif kind == "dc":
         lines.append(" ".join(["def", "dc", "1" if case["already"] else "0",
-                               *[f"{x}:{k}:{d if d is not None else '-'}" for x, _a, k, d in case["fields"]]]))
+                               *[f"{x}:{k}:{d if d is not None else '-'}:{ann_tok(a)}" for x, a, k, d in case["fields"]]]))
     if impl is not None and impl.get("facts", {}).get("def_error"):
         # the model's own definition verdict is still printed by the driver; nothing can be instantiated
         return lines
@@ -988,15 +1179,16 @@ def model_input(case, impl=None):
         lines.append(_args_line("inst", run["inst"]))
         if rf is not None and rf["inst"] != "ok":
             continue
+        lines.append("io")
         lines.append(_args_line("call", run["call"]))
-        if run.get("again") and (rf is None or rf["call"] == "ret"):
-            lines.append("again")
+        if rf is None or rf["call"] == "ret":
+            lines.append("io")
+            if run.get("again"):
+                lines.append("again")
     return lines
 
 
 def corr_view(case, impl):
-    if case["kind"] == "fn" and _expect_def_error(case):
-        return []
     return impl["obs"]
 
 
@@ -1019,56 +1211,46 @@ def oracle(case, r):
     if kind == "dc":
         sfacts = {"already": bool(case["already"]), "has_factory": any(k == "f" for _x, _a, k, _d in case["fields"])}
     # ---- the definition --------------------------------------------------------------------------
+    expect = _def_expect(case)
     if F.get("def_error"):
-        if kind == "fn" and _expect_def_error(case):
+        if expect in ("refuse", "any"):
             return []
         return [_f(case, "def-error", f"a valid definition was refused: {F['def_error']}", **sfacts)]
-    if kind == "fn" and _expect_def_error(case):
+    if expect == "refuse":
         return [_f(case, "def-accepted", f"{len(case['declared'])} labels declared for a function returning "
-                   f"{len(case['rets'])} values, validation on, but the class was created")]
-    # inputs: one per parameter, in order, with default and annotation
-    if kind in ("fn", "dc", "dict"):
-        if kind == "fn":
-            exp = [(q["name"], q["default"] or "ND") for q in case["params"]]
-        elif kind == "dc":
-            exp = [(x, d if k == "v" else "ND") for x, _a, k, d in case["fields"]]
-        else:
-            exp = [(x, d or "ND") for x, _a, d in case["spec"]]
-        got = [(k, d) for k, _h, d in F.get("preview_in", [])]
-        if got != exp:
-            fails.append(_f(case, "preview-inputs", f"expected {exp}, preview_io gives {got}", **sfacts))
-        if F.get("hints_in_ok") is not None and not all(F["hints_in_ok"]):
-            fails.append(_f(case, "preview-input-hints", f"{F.get('preview_in')} vs annotations", **sfacts))
-        if F.get("inst_in") is not None:
-            goti = [(k, d) for k, _h, d in F["inst_in"]]
-            if goti != exp:
-                fails.append(_f(case, "instance-inputs", f"expected {exp}, instance has {goti}", **sfacts))
-            if F.get("inst_in_hint_ok") is not None and not all(F["inst_in_hint_ok"]):
-                fails.append(_f(case, "instance-input-hints", f"{F['inst_in']}", **sfacts))
-    if kind == "fn":
-        labels = [k for k, _h in F.get("preview_out", [])]
-        if labels != F.get("exp_out_labels"):
-            fails.append(_f(case, "preview-outputs", f"expected labels {F.get('exp_out_labels')}, got {labels}"))
-        elif not all(F.get("hints_out_ok", [])):
-            fails.append(_f(case, "preview-output-hints", f"{F.get('preview_out')} vs '{case['ret_ann']}'"))
-        if F.get("inst_out") is not None and [k for k, _h in F["inst_out"]] != labels:
-            fails.append(_f(case, "instance-outputs", f"{F['inst_out']} vs preview {labels}"))
-    if kind in ("list", "df"):
-        pre = "item_" if kind == "list" else "row_"
-        exp = [(f"{pre}{i}", "ND") for i in range(case["n"])]
-        got = [(k, d) for k, _h, d in F.get("preview_in", [])]
-        if got != exp:
-            fails.append(_f(case, "preview-inputs", f"expected {exp}, got {got}"))
-    if kind == "unpack":
-        if [k for k, _h in F.get("preview_out", [])] != [f"item_{i}" for i in range(case["n"])]:
-            fails.append(_f(case, "preview-outputs", f"{F.get('preview_out')}"))
+                   f"{nvals_of(case)} values, validation on, but the class was created")]
+    # inputs: one per parameter, in order, with default and annotation (class-level preview)
+    pi = F.get("preview_in") or {}
+    if not pi.get("ok"):
+        got, exp = pi.get("got"), pi.get("exp")
+        clause = "preview-inputs" if [g[0::2] for g in got or []] != [e[0::2] for e in exp or []] else "preview-input-hints"
+        fails.append(_f(case, clause, f"the definition says {exp} (label, hint, default), preview_io gives {got}", **sfacts))
+    # outputs: one per returned value, labelled as declared or as written in the return statement
+    po = F.get("preview_out")
+    if po is not None and expect == "ok" and not fails:
+        if not po["labels_ok"]:
+            fails.append(_f(case, "preview-outputs", f"expected {po['exp']}, preview_io gives {po['got']}"))
+        elif not po["ok"]:
+            fails.append(_f(case, "preview-output-hints", f"expected {po['exp']}, preview_io gives {po['got']}"))
+    # every instance carries the class-level description
+    if not fails:
+        for i, rf in enumerate(F.get("runs", [])):
+            if rf.get("inst") != "ok":
+                continue
+            ii, io = rf["io_in"], rf["io_out"]
+            if not ii["ok"]:
+                clause = "instance-inputs" if [g[0::2] for g in ii["got"]] != [e[0::2] for e in ii["exp"]] else "instance-input-hints"
+                fails.append(_f(case, clause, f"run #{i}: the definition says {ii['exp']}, the instance has {ii['got']}", **sfacts))
+            elif not io["ok"]:
+                fails.append(_f(case, "instance-outputs", f"run #{i}: preview_io shows {io['exp']}, the instance has {io['got']}", **sfacts))
+            if fails:
+                break
     if fails:
         return fails[:1]
     # ---- the runs ------------------------------------------------------------------------------------
     consistent_labels = True
     if kind == "fn" and case["declared"] is not None:
-        nvals = 0 if case["ret_style"] != "values" else (1 if case["single_tuple"] else len(case["rets"]))
-        consistent_labels = len(case["declared"]) in (1, nvals)
+        consistent_labels = len(case["declared"]) in (1, nvals_of(case))
     for i, (run, rf) in enumerate(zip(case["runs"], F.get("runs", []))):
         py = rf["py"]
         where = f"run #{i} inst={run['inst']} call={run['call']}"
@@ -1088,6 +1270,8 @@ def oracle(case, r):
                                 f"returned {rf.get('ret')}", **sfacts))
         elif rf["py_ret"] is None:
             pass  # the reference makes no demand (ragged table, list longer than the outputs)
+        elif not consistent_labels and rf["call"] != "ret":
+            pass  # labels contradict the function and validation was switched off by the user
         elif rf["call"] != "ret":
             fails.append(_f(case, "run-refused", f"{where}: Python returns {rf['py_ret']}, the node raised "
                             f"{rf.get('call_exc') or rf['call']}", **sfacts))
@@ -1095,7 +1279,10 @@ def oracle(case, r):
             pass  # labels contradict the function and validation was switched off by the user
         else:
             exp = rf["py_ret"]
-            if rf["ret"] != exp:
+            if [v for _k, v in rf["ins"]] != rf["py_args"]:
+                fails.append(_f(case, "inputs-bound", f"{where}: Python binds {rf['py_args']} to the parameters, the "
+                                f"input channels hold {rf['ins']}", **sfacts))
+            elif rf["ret"] != exp:
                 fails.append(_f(case, "return-value", f"{where}: function returns {exp}, node returned {rf['ret']}", **sfacts))
             else:
                 outs = [v for _k, v in rf["outs"]]
